@@ -54,6 +54,7 @@ def base_models():
             sp["workplaces"][0]["facilities"][1]["absence"] = [0, 2]
             out.append(sp)
     out.append(F.two_team_workplace_spec())
+    out.append(F.shared_child_spec())
     # automatic task with a half-integer rate (remaining work crosses zero between steps) next to worked tasks
     sp = F.with_teams({"tasks": [{"name": "T0", "work": 2.5, "auto": True}, {"name": "T1", "work": 1.5}, {"name": "T2", "work": 1.0}], "links": [[0, 2, "FS"], [1, 2, "FS"]]}, "MIX")
     out.append(sp)
